@@ -864,3 +864,82 @@ Proof.
   - exists blocks. split; [exact E2|exact F2].
 Qed.
 
+
+(* ---- read_cif: the other categories cannot change the atoms; they can only abort the call --- *)
+
+Lemma site_recs_app {O} (a b : list (frec O)) : site_recs (a ++ b) = (site_recs a ++ site_recs b)%list.
+Proof. unfold site_recs. apply flat_map_app. Qed.
+
+Lemma site_recs_other {O} (l : list O) : site_recs (map FOther l) = [].
+Proof. unfold site_recs. induction l as [|x l IH]; [reflexivity|]. cbn. exact IH. Qed.
+
+Lemma site_recs_site {O} (l : list record) : site_recs (map (@FSite O) l) = l.
+Proof. unfold site_recs. induction l as [|x l IH]; [reflexivity|]. cbn. f_equal. exact IH. Qed.
+
+Lemma run_handlers_ok {O} (hs : list (hres O)) :
+  (forall h, In h hs -> exists p, h = Ok p) -> exists p, run_handlers hs = Ok p.
+Proof.
+  induction hs as [|h t IH]; intros H; [eexists; reflexivity|].
+  destruct (H h (or_introl eq_refl)) as [p ->].
+  destruct IH as [q Hq]; [intros h' Hh'; apply H; now right|].
+  cbn [run_handlers bind]. rewrite Hq. cbn [bind]. eexists; reflexivity.
+Qed.
+
+Lemma run_handlers_err {O} (hs : list (hres O)) e :
+  In (Err e) hs -> exists e', run_handlers hs = Err e'.
+Proof.
+  induction hs as [|h t IH]; intros H; [destruct H|].
+  destruct H as [-> | H]; [eexists; reflexivity|].
+  destruct h as [p|e0]; [|eexists; reflexivity].
+  destruct (IH H) as [e' He']. cbn [run_handlers bind]. rewrite He'. eexists; reflexivity.
+Qed.
+
+(* PROVIDED no other handler raises, read_cif returns, and its coordinate records are exactly
+   atom_site's, whatever the other categories contain *)
+Theorem read_cif_atoms : forall (O : Type) mv rows (pre post : list (hres O)),
+  (forall h, In h (pre ++ post)%list -> exists p, h = Ok p) ->
+  o_exn (atom_site mv rows) = None ->
+  exists l errs, read_cif mv rows pre post = Ok (l, errs) /\ site_recs l = o_recs (atom_site mv rows).
+Proof.
+  intros O mv rows pre post H Hx.
+  destruct (run_handlers_ok pre) as [a Ha]; [intros h Hh; apply H, in_or_app; now left|].
+  destruct (run_handlers_ok post) as [c Hc]; [intros h Hh; apply H, in_or_app; now right|].
+  unfold read_cif. rewrite Ha. cbn [bind]. rewrite Hx, Hc. cbn [bind].
+  eexists. eexists. split; [reflexivity|].
+  rewrite !site_recs_app, !site_recs_other, site_recs_site. cbn [app]. apply app_nil_r.
+Qed.
+
+(* the proviso is needed: a single raising handler makes read_cif yield nothing *)
+Theorem read_cif_handler_raises : forall (O : Type) mv rows (pre post : list (hres O)) e,
+  In (Err e) (pre ++ post)%list -> exists e', read_cif mv rows pre post = Err e'.
+Proof.
+  intros O mv rows pre post e H. unfold read_cif.
+  apply in_app_or in H as [H | H].
+  - destruct (run_handlers_err pre e H) as [e' ->]. eexists; reflexivity.
+  - destruct (run_handlers pre) as [a|e0]; [|eexists; reflexivity]. cbn [bind].
+    destruct (o_exn (atom_site mv rows)); [eexists; reflexivity|].
+    destruct (run_handlers_err post e H) as [e' ->]. eexists; reflexivity.
+Qed.
+
+(* repaired read_cif: whatever the other handlers do (return or raise one of the caught
+   exceptions), the call returns atom_site's coordinate records - the proviso of read_cif_atoms is
+   discharged by _optional_records *)
+Theorem read_cif_guarded_atoms : forall (O : Type) mv rows (pre post : list (string * hres O)),
+  o_exn (atom_site mv rows) = None ->
+  exists l errs, read_cif_guarded mv rows pre post = Ok (l, errs) /\ site_recs l = o_recs (atom_site mv rows).
+Proof.
+  intros O mv rows pre post Hx. unfold read_cif_guarded. apply read_cif_atoms; [|exact Hx].
+  intros h Hh. rewrite <- map_app in Hh. apply in_map_iff in Hh as ([n r] & <- & _).
+  unfold optional_records. cbn [snd fst]. destruct r as [p|[| |]]; eexists; reflexivity.
+Qed.
+
+(* ... and atom_site stays strict: its own exception still ends the call *)
+Theorem read_cif_guarded_strict : forall (O : Type) mv rows (pre post : list (string * hres O)) e,
+  o_exn (atom_site mv rows) = Some e -> read_cif_guarded mv rows pre post = Err e.
+Proof.
+  intros O mv rows pre post e Hx. unfold read_cif_guarded, read_cif.
+  destruct (run_handlers_ok (map optional_records pre)) as [a Ha].
+  - intros h Hh. apply in_map_iff in Hh as ([n r] & <- & _).
+    unfold optional_records. cbn [snd fst]. destruct r as [p|[| |]]; eexists; reflexivity.
+  - rewrite Ha. cbn [bind]. rewrite Hx. reflexivity.
+Qed.
